@@ -63,6 +63,50 @@ fn churn(rounds: usize, seed: u64) {
     }
 }
 
+thread_local! {
+    /// where the last panic happened (file:line message), filled by the panic hook
+    pub static PANIC_AT: std::cell::RefCell<Option<String>> = std::cell::RefCell::new(None);
+}
+/// wall-clock start of the running operation in ms since the epoch (0 = none), for the watchdog
+pub static OP_STARTED: std::sync::atomic::AtomicU64 = std::sync::atomic::AtomicU64::new(0);
+
+pub fn thread_cpu_ms() -> u64 {
+    let mut ts = libc::timespec { tv_sec: 0, tv_nsec: 0 };
+    unsafe { libc::clock_gettime(libc::CLOCK_THREAD_CPUTIME_ID, &mut ts) };
+    ts.tv_sec as u64 * 1000 + ts.tv_nsec as u64 / 1_000_000
+}
+
+pub fn now_ms() -> u64 {
+    std::time::SystemTime::now().duration_since(std::time::UNIX_EPOCH).unwrap().as_millis() as u64
+}
+
+pub fn install_panic_hook() {
+    std::panic::set_hook(Box::new(|info| {
+        let loc = info.location().map(|l| format!("{}:{}", l.file(), l.line())).unwrap_or_default();
+        // stable names: the crate's files relative to its root, the standard library without the toolchain hash
+        let loc = if let Some(rest) = loc.strip_prefix("/rustc/") {
+            format!("rust/{}", rest.splitn(2, '/').nth(1).unwrap_or(rest))
+        } else if let Some(i) = loc.find("/src/") {
+            loc[i + 1..].to_string()
+        } else {
+            loc
+        };
+        let msg = if let Some(s) = info.payload().downcast_ref::<&str>() {
+            s.to_string()
+        } else if let Some(s) = info.payload().downcast_ref::<String>() {
+            s.clone()
+        } else {
+            String::new()
+        };
+        let short: String = msg.chars().take(60).collect();
+        if OP_STARTED.load(std::sync::atomic::Ordering::Relaxed) == 0 {
+            // not inside an operation of the crate: a harness bug, say so
+            eprintln!("harness panic at {}: {}", loc, msg);
+        }
+        PANIC_AT.with(|p| *p.borrow_mut() = Some(format!("{} {}", loc, short)));
+    }));
+}
+
 pub struct Session {
     pub kept: Vec<Option<Kept>>,
     pub world: Shared,
@@ -150,10 +194,32 @@ impl Session {
             w.frames.clear();
             w.lean.log(&format!("OP {}", line));
         }
+        crate::alloc::reset();
+        PANIC_AT.with(|p| p.borrow_mut().take());
+        let cpu0 = thread_cpu_ms();
+        OP_STARTED.store(now_ms(), std::sync::atomic::Ordering::Relaxed);
         let r = match catch_unwind(AssertUnwindSafe(|| self.op_inner(line))) {
             Ok(r) => r,
             Err(_) => "panic".to_string(),
         };
+        OP_STARTED.store(0, std::sync::atomic::Ordering::Relaxed);
+        // a single allocation request of 1 GiB or more is an outcome of its own (C13), whatever the call returned
+        let biggest = crate::alloc::max_request();
+        let r = if biggest >= crate::alloc::BIG { "bigalloc".to_string() } else { r };
+        {
+            let mut w = self.world.borrow_mut();
+            if biggest >= crate::alloc::BIG {
+                w.lean.log(&format!("NOTE alloc-request {}", biggest));
+            }
+            if let Some(at) = PANIC_AT.with(|p| p.borrow_mut().take()) {
+                w.lean.log(&format!("NOTE panic-at {}", at.replace(' ', "_")));
+            }
+            // CPU time, not wall time: retry back-off sleeps are bounded waits, not runaway computation
+            let ms = thread_cpu_ms().saturating_sub(cpu0);
+            if ms > 3000 {
+                w.lean.log(&format!("NOTE slow-op {}", ms));
+            }
+        }
         {
             let mut w = self.world.borrow_mut();
             let parts: Vec<(String, usize)> = w.partial.drain(..).collect();
@@ -488,6 +554,9 @@ impl Session {
             let toks: Vec<&str> = h.split(' ').collect();
             let mut w = self.world.borrow_mut();
             match toks.as_slice() {
+                ["rawreply", k, bytes] => {
+                    w.raw_replies.insert(k.parse().unwrap(), unhex(bytes));
+                }
                 ["unreachable", host] => {
                     w.faults.unreachable.insert(s(host));
                 }
